@@ -35,6 +35,8 @@ def ja_atoms(small=False, odd_names=False):
         # same values slot by slot as S[mod=nm,form=base,fin=f] / NP[case=ga,mod=nm,fin=f], different feature names
         out.append(Atom('S', TernaryFeature(('case', 'nm'), ('mod', 'base'), ('fin', 'f'))))
         out.append(Atom('NP', TernaryFeature(('mod', 'ga'), ('case', 'nm'), ('fin', 'f'))))
+        # the same key=value pairs as NP[case=ga,mod=nm,fin=f] in another slot order: a different feature (other text, other hash)
+        out.append(Atom('NP', TernaryFeature(('mod', 'nm'), ('case', 'ga'), ('fin', 'f'))))
     return out
 
 
